@@ -187,6 +187,14 @@ pub fn run(ctx: &Ctx) -> Report {
         // ------------------------------------------------------------ predicates
         let mut preds: Vec<E> = vec![];
         let some_n = w.t.rows.iter().find_map(|r| if let V::Int(i) = r[1] { Some(i) } else { None }).unwrap_or(10);
+        // every distinct value of the indexed INT column (zero, negatives, large) as an index-equality probe
+        let mut distinct_n: Vec<i64> = w.t.rows.iter().filter_map(|r| if let V::Int(i) = r[1] { Some(i) } else { None }).collect();
+        distinct_n.sort(); distinct_n.dedup();
+        for v in distinct_n.iter().take(10) {
+            preds.push(cmp(Op::Eq, E::Col(1), int(*v)));
+            preds.push(cmp(Op::Eq, int(*v), E::Col(1)));
+            preds.push(and(&cmp(Op::Eq, E::Col(1), int(*v)), &cmp(Op::Ge, E::Col(0), int(1))));
+        }
         let sarg: Vec<E> = vec![
             cmp(Op::Eq, E::Col(0), int(3)), cmp(Op::Eq, E::Col(0), int(99)), cmp(Op::Eq, int(2), E::Col(0)),
             cmp(Op::Eq, E::Col(1), int(some_n)), cmp(Op::Eq, E::Col(1), int(10)), cmp(Op::Eq, E::Col(1), E::Lit(V::Null)),
